@@ -705,8 +705,10 @@ def _validate_list_match(target: list | tuple, actual: list | tuple) -> Resource
 
 def _validate_set_match(target: list | tuple, actual: list | tuple) -> ResourceMatch:
     try:
-        target_set = set(target)
-        actual_set = set(actual)
+        # bool is an int in Python (True == 1, same hash): keep them apart, as
+        # the scalar comparison in _validate_match does.
+        target_set = {(isinstance(value, bool), value) for value in target}
+        actual_set = {(isinstance(value, bool), value) for value in actual}
     except TypeError as err:
         if "dict" in f"{err}":
             return ResourceMatch(
@@ -730,12 +732,12 @@ def _validate_set_match(target: list | tuple, actual: list | tuple) -> ResourceM
 
     differences = []
 
-    for missing_value in missing_values:
+    for _, missing_value in missing_values:
         differences.append(
             f"<missing '{missing_value}'>",
         )
 
-    for unexpected_value in unexpected_values:
+    for _, unexpected_value in unexpected_values:
         differences.append(
             f"<unexpectedly found '{unexpected_value}'>",
         )
